@@ -3,12 +3,221 @@
 //! input  = (g seg seg2)   seg  = clusters of the text (real CharString),
 //!                          seg2 = clusters of the real clean(text) (oracle for idempotence)
 //! output = (clean boundaries remove full (clean(clean)))
+//! In grapheme mode the model also segments the text and the cleaned text itself
+//! (UAX29_Model.v) and the correspondence requires both to equal seg / seg2.
+//! Streams that exist for that: `uax29` (segmentation stress strings drawn from every
+//! category of the crate's table) and `probe` (a fixed probe set around one code point;
+//! random code points in the quick tier, ALL scalar values in `gen --exhaustive`).
 use text_utils::text::{clean, word_boundaries};
 use text_utils::unicode::CharString;
 use text_utils::whitespace::{full, remove};
 use vh::*;
 
-struct C11;
+#[path = "../uax29_ranges.rs"]
+mod uax29_ranges;
+use uax29_ranges::{GRAPHEME_CAT_TABLE, INCB_EXTEND_TABLE, INCB_LINKER};
+
+#[derive(Default)]
+struct C11 {
+    /// texts produced by the two segmentation streams (for the tags)
+    uax: std::collections::HashMap<String, &'static str>,
+    /// ranges of GRAPHEME_CAT_TABLE grouped by category index
+    by_cat: Vec<Vec<(u32, u32)>>,
+}
+
+// indices into uax29_ranges::CATS
+const C_EXTEND: usize = 3;
+const C_EXTPICT: usize = 4;
+const C_CONSONANT: usize = 5;
+const C_L: usize = 6;
+const C_LV: usize = 8;
+const C_LVT: usize = 9;
+const C_PREPEND: usize = 10;
+const C_SPACINGMARK: usize = 12;
+const C_T: usize = 13;
+const C_V: usize = 14;
+
+fn ch(c: u32) -> char {
+    // surrogates cannot occur in a &str: move to the nearest scalar value
+    char::from_u32(c).unwrap_or(if c < 0xDC00 { '\u{D7FF}' } else { '\u{E000}' })
+}
+
+/// The probe strings around code point `c`, separated by U+2028 (category Control and
+/// White_Space: GB4/GB5 break on both sides whatever `c` is, so the probes do not interact).
+/// Together they distinguish every (grapheme category, InCB class) from every other:
+///  L c T, V c V          Hangul L / V / T / LV / LVT, Prepend
+///  CR c LF               CR, LF
+///  E c ZWJ E, E c E      Extend / ZWJ / SpacingMark / Extended_Pictographic / Control (E = U+1F600)
+///  RI c RI               Regional_Indicator
+///  K c K, K virama c K   InCB Consonant / Linker / Extend (K = U+0915)
+///  SPACE c, c c          what joins a preceding U+0020 (KF1); self-joining categories
+fn probe_text(c: u32) -> String {
+    let c = ch(c);
+    let mut s = String::new();
+    let sep = '\u{2028}';
+    for (pre, post) in [
+        ("\u{1100}", "\u{11A8}"),
+        ("\u{1161}", "\u{1161}"),
+        ("\r", "\n"),
+        ("\u{1F600}", "\u{200D}\u{1F600}"),
+        ("\u{1F600}", "\u{1F600}"),
+        ("\u{1F1E6}", "\u{1F1E6}"),
+        ("\u{915}", "\u{915}"),
+        ("\u{915}\u{94D}", "\u{915}"),
+        (" ", ""),
+    ] {
+        s.push_str(pre);
+        s.push(c);
+        s.push_str(post);
+        s.push(sep);
+    }
+    s.push(c);
+    s.push(c);
+    s
+}
+
+const N_SCALARS: u32 = 0x110000 - 0x800;
+/// k-th scalar value (surrogates skipped)
+fn scalar(k: u32) -> u32 {
+    if k < 0xD800 {
+        k
+    } else {
+        k + 0x800
+    }
+}
+
+impl C11 {
+    fn cats(&mut self) -> &Vec<Vec<(u32, u32)>> {
+        if self.by_cat.is_empty() {
+            self.by_cat = vec![vec![]; uax29_ranges::CATS.len()];
+            for &(lo, hi, k) in GRAPHEME_CAT_TABLE {
+                self.by_cat[k as usize].push((lo, hi));
+            }
+        }
+        &self.by_cat
+    }
+
+    /// a random code point of category index `k` (random range, random position, ends preferred)
+    fn of_cat(&mut self, rng: &mut Rng, k: usize) -> char {
+        let rs = &self.cats()[k];
+        if rs.is_empty() {
+            return 'a';
+        }
+        let (lo, hi) = *rng.pick(rs);
+        ch(in_range(rng, lo, hi))
+    }
+
+    /// one unit of a segmentation-stress string
+    fn uax_unit(&mut self, rng: &mut Rng, out: &mut String) {
+        match rng.below(24) {
+            // a code point of a random category of the table
+            0..=4 => {
+                let k = 1 + rng.below(uax29_ranges::CATS.len() - 1);
+                out.push(self.of_cat(rng, k));
+            }
+            // a code point next to a table range (mostly Any), or anywhere (unassigned planes too)
+            5 => {
+                let &(lo, hi, _) = rng.pick(GRAPHEME_CAT_TABLE);
+                out.push(ch(if rng.chance(1, 2) { lo.saturating_sub(1) } else { hi + 1 }));
+            }
+            6 => out.push(ch(scalar(rng.below(N_SCALARS as usize) as u32))),
+            7 => out.push(*rng.pick(&['a', 'z', ' ', '~', '\u{7f}', '\u{80}', '\u{a0}', '\u{d7ff}', '\u{e000}', '\u{fffd}', '\u{ffff}', '\u{10000}', '\u{10ffff}', '\u{200b}', '\u{200c}'])),
+            // U+200D sequences
+            8 => {
+                for _ in 0..rng.range(1, 2) {
+                    out.push('\u{200d}');
+                }
+            }
+            // regional indicator runs of every parity
+            9 | 10 => {
+                for _ in 0..rng.range(1, 5) {
+                    out.push(ch(0x1F1E6 + rng.below(26) as u32));
+                }
+            }
+            // Hangul L / V / T / LV / LVT combinations
+            11 | 12 => {
+                for _ in 0..rng.range(1, 4) {
+                    let k = *rng.pick(&[C_L, C_V, C_T, C_LV, C_LVT]);
+                    out.push(self.of_cat(rng, k));
+                }
+            }
+            // Indic: consonant {extend | ZWJ | linker}* consonant
+            13 | 14 => {
+                out.push(self.of_cat(rng, C_CONSONANT));
+                for _ in 0..rng.below(4) {
+                    match rng.below(6) {
+                        0 | 1 => out.push(ch(*rng.pick(INCB_LINKER))),
+                        2 => out.push('\u{200d}'),
+                        3 => {
+                            let &(lo, hi) = rng.pick(INCB_EXTEND_TABLE);
+                            out.push(ch(in_range(rng, lo, hi)));
+                        }
+                        4 => out.push(self.of_cat(rng, C_EXTEND)),
+                        _ => out.push('\u{200c}'),
+                    }
+                }
+                if rng.chance(3, 4) {
+                    out.push(self.of_cat(rng, C_CONSONANT));
+                }
+            }
+            // Prepend chains
+            15 => {
+                for _ in 0..rng.range(1, 3) {
+                    out.push(self.of_cat(rng, C_PREPEND));
+                }
+            }
+            // emoji (+ skin tone / extend) (+ ZWJ + emoji)*
+            16 | 17 => {
+                out.push(self.of_cat(rng, C_EXTPICT));
+                for _ in 0..rng.below(3) {
+                    if rng.chance(1, 2) {
+                        out.push(ch(0x1F3FB + rng.below(5) as u32));
+                    }
+                    if rng.chance(1, 4) {
+                        out.push(self.of_cat(rng, C_EXTEND));
+                    }
+                    if rng.chance(3, 4) {
+                        out.push('\u{200d}');
+                    }
+                    if rng.chance(3, 4) {
+                        out.push(self.of_cat(rng, C_EXTPICT));
+                    }
+                }
+            }
+            // CR / LF / CRLF mixes
+            18 | 19 => {
+                for _ in 0..rng.range(1, 3) {
+                    out.push(if rng.chance(1, 2) { '\r' } else { '\n' });
+                }
+            }
+            // whitespace + combining marks
+            20 | 21 => {
+                out.push_str(*rng.pick(units::WS));
+                for _ in 0..rng.below(3) {
+                    let k = *rng.pick(&[C_EXTEND, C_SPACINGMARK, C_EXTEND]);
+                    out.push(self.of_cat(rng, k));
+                }
+            }
+            _ => out.push_str(*rng.pick(units::ASCII)),
+        }
+    }
+
+    fn uax_stress(&mut self, rng: &mut Rng) -> String {
+        let mut s = String::new();
+        for _ in 0..rng.range(1, 7) {
+            self.uax_unit(rng, &mut s);
+        }
+        s
+    }
+}
+
+fn in_range(rng: &mut Rng, lo: u32, hi: u32) -> u32 {
+    match rng.below(4) {
+        0 => lo,
+        1 => hi,
+        _ => lo + rng.below((hi - lo + 1) as usize) as u32,
+    }
+}
 
 /// units that build clusters mixing whitespace and non-whitespace in grapheme mode
 /// (Prepend + space, space + Extend, space + ZWJ) or join across a space
@@ -124,7 +333,22 @@ fn mk_input(s: &str, g: bool) -> Val {
 const EXH: &[&str] = &["a", " ", "\r", "\n", "\u{301}", "\u{600}", "\u{3000}"];
 
 impl Prop for C11 {
-    fn gen(&mut self, rng: &mut Rng, _tier: Tier, _i: usize, _n: usize) -> Val {
+    fn gen(&mut self, rng: &mut Rng, tier: Tier, _i: usize, _n: usize) -> Val {
+        // segmentation streams (grapheme mode only). Quick: 48% probes around a random scalar
+        // value (n_quick * 0.48 = 1/64 of all scalar values), 17% stress strings; thorough:
+        // no random probes (all scalar values are enumerated by `--exhaustive`), 33% stress.
+        let pick = rng.below(100);
+        let (n_probe, n_stress) = if tier == Tier::Quick { (48, 65) } else { (0, 33) };
+        if pick < n_probe {
+            let s = probe_text(scalar(rng.below(N_SCALARS as usize) as u32));
+            self.uax.insert(s.clone(), "probe");
+            return mk_input(&s, true);
+        }
+        if pick < n_stress {
+            let s = self.uax_stress(rng);
+            self.uax.insert(s.clone(), "uax29");
+            return mk_input(&s, true);
+        }
         let g = rng.chance(1, 2);
         let stream = rng.below(100);
         let s = if stream < 60 {
@@ -156,6 +380,20 @@ impl Prop for C11 {
             }
         }
         out
+    }
+
+    /// the small scope above (shard k of m) plus, for EVERY scalar value c = k mod m,
+    /// the probe strings around c
+    fn exhaustive_shard(&mut self, tier: Tier, k: usize, m: usize) -> Option<Vec<Val>> {
+        let mut out: Vec<Val> =
+            self.exhaustive(tier).into_iter().enumerate().filter(|(i, _)| i % m == k).map(|(_, v)| v).collect();
+        let mut i = k as u32;
+        while i < N_SCALARS {
+            let s = probe_text(scalar(i));
+            out.push(mk_input(&s, true));
+            i += m as u32;
+        }
+        Some(out)
     }
 
     fn run(&mut self, input: &Val) -> Option<(Val, Vec<String>)> {
@@ -193,6 +431,13 @@ impl Prop for C11 {
         });
         let mut tags = vec![];
         tags.push(if g { "g".to_string() } else { "cp".to_string() });
+        if let Some(t) = self.uax.get(&s) {
+            tags.push((*t).to_string());
+        }
+        if g && l[1].as_l().map_or(false, |cl| cl.iter().any(|c| c.as_l().map_or(false, |c| c.len() > 1))) {
+            // some cluster has more than one code point
+            tags.push("multi".into());
+        }
         let mixed = has_mixed_cluster(&s, g);
         if mixed {
             tags.push("mixed".into());
@@ -233,10 +478,30 @@ impl Prop for C11 {
                 }
             }
         }
+        // the probe separator must be whitespace for the crate (so that the probes are words)
+        if !'\u{2028}'.is_whitespace() {
+            errs.push("U+2028 is not whitespace".into());
+        }
+        // the Gallina / Rust tables must be the translation of the locked crate's tables.rs
+        let md = env!("CARGO_MANIFEST_DIR");
+        for rel in ["../tools/gen_uax29.py", "../../tools/gen_uax29.py"] {
+            let p = std::path::Path::new(md).join(rel);
+            if p.exists() {
+                match std::process::Command::new("python3").arg(&p).arg("--check").output() {
+                    Ok(o) if o.status.success() => {}
+                    Ok(o) => errs.push(format!(
+                        "tools/gen_uax29.py --check: {}",
+                        String::from_utf8_lossy(&o.stdout).trim()
+                    )),
+                    Err(e) => errs.push(format!("tools/gen_uax29.py --check could not run: {e}")),
+                }
+                break;
+            }
+        }
         errs
     }
 }
 
 fn main() {
-    main_loop(C11);
+    main_loop(C11::default());
 }
